@@ -94,6 +94,7 @@ func checkDefs() map[string]*CheckDef {
 					mc("mc-n2-req-mix", "VerifC02", map[string]int{"N": 2, "POINTS": 5}, "start ok", "start failed"),
 					mc("mc-n3-single-req-mix", "VerifC02", map[string]int{"N": 3, "POINTS": 1}, "start ok", "start failed"),
 					rh("self-candidate", "VerifC06", map[string]int{"K": 1, "PRESET": 0}, "start ok"),
+					mc("failing-callbacks-terminate", "VerifC09MC", map[string]int{"N": 2, "POINTS": 5, "FAULTS": 2}, "fault injected"),
 					rh("slice-targets-sharing-an-address", "VerifC06", map[string]int{"K": 2, "PORDER": 0, "PRESET": 0}, "start ok", "several candidates"),
 					{Name: "ring-of-70", Pkg: fac, Entry: "VerifC02Ring", Params: map[string]int{"RING": 70}, MustCover: []string{"long cycle resolved"}, Opts: ExecOpts{Termination: true, MaxSteps: 5000000, MaxDepth: 4000}},
 				}
@@ -143,6 +144,7 @@ func checkDefs() map[string]*CheckDef {
 			Runs: func(tier string) []RunSpec {
 				r := []RunSpec{
 					mc("mc-n2-lazy", "VerifC05", map[string]int{"N": 2, "POINTS": 7, "LAZY": 1}, "start ok", "acyclic edge", "lazy component not needed"),
+					{Name: "substitute-before-initialization", Pkg: fac, Entry: "VerifC05Substitute", MustCover: []string{"component substituted before initialization"}},
 					mc("mc-n3-single-lazy", "VerifC05", map[string]int{"N": 3, "POINTS": 1, "LAZY": 1}, "start ok", "acyclic edge"),
 					mc("lookups-and-declining-processor", "VerifC05", map[string]int{"N": 2, "POINTS": 5, "LAZY": 1, "LOOKUP": 1, "PROC0": 1}, "start ok", "acyclic edge"),
 				}
@@ -162,7 +164,7 @@ func checkDefs() map[string]*CheckDef {
 			Runs: func(tier string) []RunSpec {
 				return []RunSpec{
 					{Name: "run", Pkg: app, Entry: "VerifC13", Params: map[string]int{"N": tierPick(tier, 3, 4), "FAULTS": 1}, MustCover: []string{"all runners ok", "runner failed", "start-up fault", "runner with a Priority marker but no Order"}},
-					{Name: "integration", Pkg: app, Entry: "VerifAppIntegration", Params: map[string]int{"N": tierPick(tier, 3, 4), "R": 2}, MustCover: []string{"start ok", "component init fails", "lazy runner", "initialization of a lazy runner fails"}, Opts: ExecOpts{Sched: "seq", PermuteRange: tier == "thorough", PermuteCoarse: true}},
+					{Name: "integration", Pkg: app, Entry: "VerifAppIntegration", Params: map[string]int{"N": tierPick(tier, 3, 4), "R": 2}, MustCover: []string{"start ok", "component init fails", "lazy runner", "initialization of a lazy runner fails", "eager component that is only a factory post-processor"}, Opts: ExecOpts{Sched: "seq", PermuteRange: tier == "thorough", PermuteCoarse: true}},
 				}
 			},
 			LevelText: "Bounded symbolic model checking of the real App.run/initConfiguration/initFactory/refresh/callRunners with a logging stub factory: for every multiset of up to N runners (three classes, unconstrained 64-bit Order), every choice of failing runner and every failing start-up phase: no runner before refresh finished, each at most once and in the ordering contract's sequence, exactly once if none fails, nothing after a failing runner, run returns an error exactly when something failed.",
@@ -174,7 +176,7 @@ func checkDefs() map[string]*CheckDef {
 					{Name: "close", Pkg: app, Entry: "VerifC14", Params: map[string]int{"N": tierPick(tier, 5, 6)}, MustCover: []string{"several closers", "no closer"}, Opts: ExecOpts{Sched: "join", Races: true}},
 					{Name: "many-closers", Pkg: app, Entry: "VerifC14Many", MustCover: []string{"many closers"}, Opts: ExecOpts{Sched: "seq", Races: true}},
 					{Name: "closers-waiting-for-each-other", Pkg: app, Entry: "VerifC14Peers", MustCover: []string{"closers waiting for each other", "ordered closer waiting for a peer"}, Opts: ExecOpts{Sched: "join"}},
-					{Name: "integration", Pkg: app, Entry: "VerifAppIntegration", Params: map[string]int{"N": 1, "R": 1}, MustCover: []string{"closer that wires the App"}, Opts: ExecOpts{Sched: "seq"}},
+					{Name: "integration", Pkg: app, Entry: "VerifAppIntegration", Params: map[string]int{"N": 1, "R": 1}, MustCover: []string{"closer that wires the App", "Close called before start-up"}, Opts: ExecOpts{Sched: "seq"}},
 				}
 			},
 			LevelText: "Bounded symbolic model checking of the real App.Close with engine goroutines, WaitGroup and channel models under the adversarial-join schedule (spawned goroutines run only when the parent blocks or returns, in every order; the parent resumes as early as possible): at the instant Close returns every closer ran exactly once and returned, for 0..N closers and every subset that fails.",
@@ -186,11 +188,11 @@ func checkDefs() map[string]*CheckDef {
 					{Name: "options", Pkg: app, Entry: "VerifC15Options", Params: map[string]int{"K": tierPick(tier, 3, 4)}, MustCover: []string{"file added", "loader added", "ordered custom loader added"}},
 					{Name: "load", Pkg: ioc + "/configure", Entry: "VerifC15Load", Params: map[string]int{"N": tierPick(tier, 3, 4)}, MustCover: []string{"several loaders", "loader failed"}},
 					{Name: "conflicting-shapes", Pkg: ioc + "/configure", Entry: "VerifC15Conflicts", MustCover: []string{"later map replaces earlier scalar"}},
-					{Name: "merge-real-viper", Pkg: ioc + "/configure", Entry: "VerifC15Merge", Params: map[string]int{"N": tierPick(tier, 2, 3)}, MustCover: []string{"merged", "overlapping documents merged", "subtree replaced at run time"}},
+					{Name: "merge-real-viper", Pkg: ioc + "/configure", Entry: "VerifC15Merge", Params: map[string]int{"N": tierPick(tier, 2, 3)}, MustCover: []string{"merged", "overlapping documents merged", "subtree replaced at run time", "command-line arguments loaded", "source added after a first read"}},
 				}
 			},
 			LevelText: "Bounded symbolic model checking of the real app.SetConfig/AddConfigLoader/SetConfigLoader options and configure.AddLoaders/SetLoaders/Initialize/loadConfigure with a recording binder: for every sequence of up to K options and every set of up to N loaders (three classes, unconstrained Order, empty or non-empty payload, one failing): every document of every source that was added reaches the binder exactly once, priority-ordered (file) loaders first, unordered ones in the order added; a failing loader fails Initialize; and, with the real viper behind the real ViperBinder, the effective configuration of up to N overlapping YAML documents is their deep merge in loader order (last wins, nothing lost, nothing else contributes).",
-			LevelNote: "Two layers. (1) Symbolic: 'the right documents reach the binder in the right order, none dropped' with a recording binder, unconstrained Order values and document bytes. (2) The run merge-real-viper drives the real configure.Initialize, loader.RawLoader and binder.ViperBinder from SSA with the REAL spf13/viper and YAML decoder linked into the engine and used natively on the concrete documents of each path: N (2, thorough 3) YAML documents assembled from symbolic choices of which overlapping top-level / nested / two-levels-down keys each supplies; asserted are last-wins, survival of singly supplied keys, absence of unsupplied keys (a process environment variable named like a key contributes nothing), the flattened Get(\"\") and Get after a runtime Set. The run conflicting-shapes feeds viper documents whose shapes conflict (map then scalar, flat dotted key then nested key): both are listed findings decided by the dependency. viper's behaviour on other document shapes (lists, anchors, type coercion), ArgsLoader rendering and file I/O (os.ReadFile is a stub) stay outside.",
+			LevelNote: "Two layers. (1) Symbolic: 'the right documents reach the binder in the right order, none dropped' with a recording binder, unconstrained Order values and document bytes. (2) The run merge-real-viper drives the real configure.Initialize, loader.RawLoader and binder.ViperBinder from SSA with the REAL spf13/viper and YAML decoder linked into the engine and used natively on the concrete documents of each path: N (2, thorough 3) YAML documents assembled from symbolic choices of which overlapping top-level / nested / two-levels-down keys each supplies; asserted are last-wins, survival of singly supplied keys, absence of unsupplied keys (a process environment variable named like a key contributes nothing), the flattened Get(\"\") and Get after a runtime Set. The run conflicting-shapes feeds viper documents whose shapes conflict (map then scalar, flat dotted key then nested key): both are listed findings decided by the dependency. viper's behaviour on other document shapes (lists, anchors, type coercion), The real loader.ArgsLoader (go-kid/properties from SSA, yaml.Marshal natively) renders two --app.config arguments that take part in the merge. File I/O (os.ReadFile is a stub) stays outside.",
 			Technique: techDefault, DesignRef: "DESIGN.md §3 C15"},
 		&CheckDef{ID: "C16", Title: "Placeholders",
 			Runs: func(tier string) []RunSpec {
@@ -238,7 +240,7 @@ func checkDefs() map[string]*CheckDef {
 				return []RunSpec{
 					{Name: "register", Pkg: fac, Entry: "VerifC07Register", Params: map[string]int{"K": 3, "L": tierPick(tier, 1, 2)}, MustCover: []string{"duplicate rejected", "same-named types of different packages", "stateless components sharing a name"}, Opts: ExecOpts{PermuteRange: true}},
 					{Name: "register-log-levels", Pkg: fac, Entry: "VerifC07Register", Params: map[string]int{"K": 3, "L": 1, "LOGLEVEL": 1}, MustCover: []string{"duplicate rejected", "log level changed before registration"}, Opts: ExecOpts{RealSyslog: true}},
-					rh("by-name", "VerifC07", map[string]int{"K": tierPick(tier, 2, 3)}, "named component found", "named component has an incompatible type", "optional point, no such component", "name given through a placeholder", "field holds a built-in default before start-up"),
+					rh("by-name", "VerifC07", map[string]int{"K": tierPick(tier, 2, 3)}, "named component found", "named component has an incompatible type", "optional point, no such component", "name given through a placeholder", "field holds a built-in default before start-up", "default type name of a provider requested"),
 					rh("peers-of-the-holders-type", "VerifC07Peers", nil, "peer of the holder's own type"),
 					rh("several-named-points", "VerifC07Fields", nil, "absent optional name next to other points"),
 					rh("symbolic-names", "VerifC07Symbolic", nil, "first name requested", "second name requested", "no such name"),
@@ -322,6 +324,8 @@ func checkDefs() map[string]*CheckDef {
 					{Name: "numeric-expression-family", Pkg: prc, Entry: "VerifC18ExprNumbers", MustCover: []string{"numeric expression evaluated", "boolean result"}},
 					{Name: "validation-glue", Pkg: prc, Entry: "VerifC18Validate", Params: map[string]int{"N": tierPick(tier, 3, 4)}, MustCover: []string{"constraint violated", "constraint satisfied", "validated value bound by prefix", "undefined validation rule"}},
 					{Name: "pointer-validation", Pkg: prc, Entry: "VerifC18ValidatePointer", MustCover: []string{"pointer constraint violated", "pointer constraint satisfied"}},
+					{Name: "several-validated-fields", Pkg: prc, Entry: "VerifC18SeveralValidated", MustCover: []string{"one of several validated fields violates its constraint"}},
+					{Name: "same-tag-two-configurations", Pkg: prc, Entry: "VerifC18TwoConfigurations", MustCover: []string{"same tag under two configurations"}},
 					{Name: "several-expressions", Pkg: prc, Entry: "VerifC18MultiExpr", MustCover: []string{"several expressions in one tag"}},
 					{Name: "struct-validation", Pkg: prc, Entry: "VerifC18ValidateStruct", MustCover: []string{"struct constraint violated", "struct constraint satisfied", "only the required nested struct is empty"}},
 				}
